@@ -384,6 +384,11 @@ def m_normpath(ex, s, args, kw, node):
             continue
         p = vals[0].z
         r = pp_normpath(p)
+        if getattr(ex.spec, 'normpath_plain', False):
+            # contracts that only pass the normalised path on (no slicing of it) opt out of the per-shape paths
+            s1.assume(norm_contract(Z, p, r))
+            out.append((s1, VBytes(r)))
+            continue
         cases = norm_cases(Z, p)
         rest = s1
         for i, (label, g, lead) in enumerate(cases):
